@@ -113,7 +113,7 @@ def k_stage(max_stages=4):
     return harness
 
 
-def h_pipeline(max_stages=2, local=False, fails=True):
+def h_pipeline(max_stages=2, local=False, fails=True, mid_dup=True):
     def harness(ex):
         from world.world import Hang
 
@@ -150,7 +150,7 @@ def h_pipeline(max_stages=2, local=False, fails=True):
                         complete_seq[k] = w.seq
             evs = enabled_events(w)
             cur_now = json.load(open(pj))["stage_num"]
-            if evs and cur_now >= 2 and not dup_done[0] and ex.flag("dup_at_%d" % step):
+            if mid_dup and evs and cur_now >= 2 and not dup_done[0] and ex.flag("dup_at_%d" % step):
                 # a stale/duplicate completion report of an earlier stage arrives while a later stage is queued or running
                 dup_done[0] = True
                 nsb0, before0 = len(w.events("sbatch")), open(pj).read()
